@@ -33,7 +33,7 @@ let show_cps (l : str) = if l = [] then "-" else String.concat "." (List.map (fu
 
 let show_err = function
   | EGeneric -> "Generic" | EInvalidEscape -> "InvalidEscape" | EInvalidAscii -> "InvalidAscii"
-  | EEof -> "Eof" | EPanicLoneCR -> "Panic" | ENotAString -> "NotAString" | EFuel -> "Fuel"
+  | EEof -> "Eof" | ENotAString -> "NotAString" | EFuel -> "Fuel"
 
 let show_lex = function
   | LexStatic (s, rest) -> "S:" ^ show_cps s ^ "|R:" ^ show_cps rest
@@ -110,16 +110,15 @@ let handle (line : string) : string =
       (match int_token z with
        | None -> Printf.sprintf "T=! P=%s" path
        | Some t ->
-           let y = show_sres (resolve FYaml Plain None t) in
-           let yj = show_sres (resolve FJson Plain None t) in
+           let y = show_sres (resolve Plain None t) in
+           let yj = y in
            let j = match json_serde_int t with SInt v -> "N:" ^ show_z v ^ ":0" | SFloat -> "F" | SBad -> "!" in
            let m = match toml_int t with TInt v -> "N:" ^ show_z v ^ ":0" | TErr -> "E" in
            Printf.sprintf "T=%s P=%s Y=%s JL=%s J=%s M=%s" (show_cps t) path y yj j m)
   | ["ys"; st; tg; v] ->
       let v = cps_of_string v in
-      Printf.sprintf "%s ns=%s ov=%s json=%s" (show_sres (resolve FYaml (style_of st) (tag_of tg) v))
-        (b2s (nonstring_spelling FYaml v)) (b2s (float_overflow_spelling v))
-        (show_sres (resolve FJson (style_of st) (tag_of tg) v))
+      Printf.sprintf "%s ns=%s ov=%s" (show_sres (resolve (style_of st) (tag_of tg) v))
+        (b2s (nonstring_spelling v)) (b2s (float_overflow_spelling v))
   | ["evs"; evs] ->
       let ws = List.filter (fun w -> w <> "") (String.split_on_char ' ' evs) in
       let es = List.map ev_of_string ws in
